@@ -263,14 +263,19 @@ func init() {
 				res.SetMax("nesting_depth", depth)
 				return res
 			}},
-			{Name: "bigliteral", Count: countFn(10, 40), Run: func(ctx *core.Ctx, idx int) core.Result {
+			{Name: "bigliteral", Count: countFn(24, 60), Run: func(ctx *core.Ctx, idx int) core.Result {
 				r := core.CaseRng(ctx.Seed, "C06/bigliteral", idx)
 				n := []int{19, 20, 400, 100000}[idx%4]
 				if idx >= 12 {
 					n = r.Range(1, 100000)
 				}
 				var s string
-				switch (idx / 4) % 5 {
+				switch (idx / 4) % 6 {
+				case 5: // a float literal with a long integer part (beyond 1.8e308 from 309 digits on)
+					s = strings.Repeat("9", n) + ".5"
+					if idx%8 < 4 {
+						s = "x = [1, " + s + "]"
+					}
 				case 0:
 					s = strings.Repeat("9", n)
 				case 1:
